@@ -277,6 +277,7 @@ Theorem C08_monitor_sound : forall keccak256 mpt_verify json_proof commits,
   mpt_sound mpt_verify commits ->
   forall (c : ecase) (k : client_kind) h,
   c_height c = Some h -> h64 (c_head c) ->
+  (forall p, c_proof c = Some p -> json_proof p = c_json c) ->
   gt_consistent keccak256 commits c k h ->
   EvmProof.verify keccak256 mpt_verify json_proof (cs_of c k) (cstore_of c) (c_height c) (c_proof c)
                   (c_ack c) (c_src c) (c_dst c) (c_seq c) (c_commitment c) = Ok tt ->
